@@ -154,6 +154,82 @@ def check_remove_output(ctx, rng):
         sc.close()
 
 
+class _SuffixIgnore:
+    """the caller's ignore object (DVC's .dvcignore filter): files whose name ends with one of the suffixes are not part of the
+    tracked data; find / walk as dvc_data.hashfile._ignore.Ignore declares them"""
+
+    def __init__(self, suffixes):
+        self.suffixes = tuple(suffixes)
+
+    def _ok(self, name):
+        return not name.endswith(self.suffixes)
+
+    def find(self, fs, path):
+        for root, _dirs, files in fs.walk(path):
+            for f in files:
+                if self._ok(f):
+                    yield fs.join(root, f)
+
+    def walk(self, fs, path, **kwargs):
+        detail = kwargs.get("detail", False)
+        for root, dirs, files in fs.walk(path, **kwargs):
+            if detail:
+                yield root, dirs, {k: v for k, v in files.items() if self._ok(k)}
+            else:
+                yield root, dirs, [f for f in files if self._ok(f)]
+
+
+def check_ignored_files(ctx, rng):
+    """a workspace holding files the caller's ignore object hides (build logs, editor backups - never cached): a checkout
+    without force towards another version, the same version, or nothing (removal of the output) leaves them alone or refuses"""
+    from dvc_data.hashfile.checkout import CheckoutError, LinkError, PromptError, checkout
+
+    sc = Scene(ctx, rng)
+    try:
+        prior = gen.rand_tree(rng, max_files=5, allow_odd=False)
+        prior = {k: v for k, v in prior.items() if not k[-1].endswith((".log", "~"))}
+        if not prior:
+            return
+        t1 = sc.put_tree(prior)
+        other = dict(prior)
+        for k in list(other):
+            r = rng.random()
+            if r < 0.3:
+                other[k] = other[k] + b" v2"
+            elif r < 0.45 and len(other) > 1:
+                del other[k]
+        t2 = sc.put_tree(other)
+        link = rng.choice(["copy", "hardlink", "symlink"])
+        sc.checkout(t1, [link], force=True)
+        ign = _SuffixIgnore((".log", "~"))
+        dirs = sorted({os.path.dirname(os.path.join(sc.ws, *k)) for k in prior})
+        hidden = {}
+        for i in range(rng.randrange(1, 4)):
+            d = rng.choice(dirs)
+            p = os.path.join(d, "%s%d%s" % (rng.choice(["build", "notes", "a"]), i, rng.choice([".log", "~"])))
+            data = b"only copy of this %d %d" % (i, rng.randrange(10**6))
+            with open(p, "wb") as f:
+                f.write(data)
+            hidden[os.path.relpath(p, sc.ws)] = data
+        mode = rng.choice(["remove_output", "remove_output", "other_version", "same_version"])
+        target = None if mode == "remove_output" else sc.obj(t2 if mode == "other_version" else t1)
+        sc.odb.cache_types = [link]
+        kind, res = safe_call(lambda: checkout(sc.ws, sc.fs, target, sc.odb, force=False, state=sc.state, ignore=ign),
+                              expected=(PromptError, CheckoutError, LinkError, FileNotFoundError))
+        case = {"ignored_files": {"prior": {"/".join(k): v.decode("latin1") for k, v in prior.items()}, "mode": mode, "link": link,
+                                  "hidden": sorted(hidden), "local": sc.local, "state": sc.state is not None}}
+        ctx.case(case, nontrivial=True)
+        ctx.count("ignored_files: mode=%s outcome=%s" % (mode, kind if kind == "ok" else res))
+        after = sc.bytes_snapshot()
+        lost = sorted(rel for rel, data in hidden.items() if after.get(rel) != data)
+        ctx.oracle(not lost, case,
+                   {"why": "a checkout without force destroyed files that the caller's ignore object hides and whose content is in no cache",
+                    "lost": lost, "outcome": kind if kind == "ok" else res},
+                   signature="ignored-file-removed-with-its-directory" if mode == "remove_output" and lost else None)
+    finally:
+        sc.close()
+
+
 def check_legacy_twin(ctx, rng):
     """a repository migrated from the text-normalising md5: the state database (shared by the legacy and the new store) has
     seen the workspace under 'md5-dos2unix'; the md5 cache holds the LF twin of a CRLF file but not the CRLF bytes; a checkout
@@ -552,6 +628,8 @@ def run(ctx):
         check_save_during_pass(ctx, ctx.rng)
     for _ in range(ctx.n(40, 400)):
         check_selective_prompt(ctx, ctx.rng)
+    for _ in range(ctx.n(30, 300)):
+        check_ignored_files(ctx, ctx.rng)
 
 
 def search(ctx):
@@ -567,6 +645,8 @@ def search(ctx):
         check_save_during_pass(ctx, ctx.rng)
     for _ in range(400):
         check_selective_prompt(ctx, ctx.rng)
+    for _ in range(300):
+        check_ignored_files(ctx, ctx.rng)
 
 
 def replay(ctx, payload):
